@@ -14,6 +14,7 @@ CHECKS['C07'] = agentchecks.run_c07
 CHECKS['C10'] = cdcnchecks.run_c10
 CHECKS['C11'] = cdcnchecks.run_c11
 CHECKS['C20'] = cdcnchecks.run_c20
+CHECKS['C19'] = cdcnchecks.run_c19
 CHECKS['C12'] = cdcnchecks.run_c12
 CHECKS['C08'] = agentchecks.run_c08
 
